@@ -118,9 +118,22 @@ Theorem C18_wrong_credentials_never_authenticate : forall ustore hres heff creds
 Proof. exact user_history. Qed.
 Print Assumptions C18_wrong_credentials_never_authenticate.
 
+(* Every LOGIN of a not-authenticated connection - whatever name and password, the empty string included (a quoted ""
+   or a {0} literal) - goes through the failure counter and the jail wait: the source has no return before them (fact
+   login_reaches_counter_on_every_path: handleLogin after its BAD guard, GetState, getUserID up to loginWG.Wait()). *)
+Theorem C18_every_login_reaches_the_counter : forall ustore hres heff creds jail g e,
+  st_of ustore g (e_sid e) = PNotAuth -> e_cmd e = CLogin ->
+  let ok := match authorize creds (e_name e) (e_pass e) with Some _ => true | None => false end in
+  let '(f, j, r, t) := login_step jail (g_fails ustore g) (g_jail ustore g) (e_time e) ok in
+  g_fails ustore (fst (fst (step ustore hres heff creds jail g e))) = f
+  /\ g_jail ustore (fst (fst (step ustore hres heff creds jail g e))) = j
+  /\ snd (fst (step ustore hres heff creds jail g e)) = r /\ snd (step ustore hres heff creds jail g e) = t.
+Proof. exact login_always_counts. Qed.
+Print Assumptions C18_every_login_reaches_the_counter.
+
 (* The jail (abstract clock: every command carries the instant at which it is taken up; arbitrary, not assumed
    monotone).  Login attempts of ALL connections in the order they are taken up; failures are counted from the last
-   success or the last jail ([streak]).  After three consecutive failures the next attempt — by anyone, with any
+   success or the last jail ([streak]); EVERY failed LOGIN counts, whatever its credentials.  After three consecutive failures the next attempt — by anyone, with any
    credentials — is answered no earlier than jail time after the third failure was answered. *)
 Theorem C18_jail : forall ustore hres heff creds jail stores h pre x1 x2 x3 y post,
   answers ustore (attempts ustore (trace ustore hres heff creds jail (init ustore stores) h))
